@@ -223,6 +223,40 @@ type guardFact struct {
 	alt *guardFact
 	// only, if non-nil, restricts the sinks the fact is required for.
 	only func(s guardSink) bool
+	// ctxParam: for tenant.HasAccess, the request context the check must be made with
+	ctxParam ssa.Value
+}
+
+// wrapperMatch: key is a call to a small predicate helper whose result `val`
+// establishes fact `kind` for the repository record passed to it.
+func wrapperMatch(g *guardCtx, f *guardFact, k an.FKey, val bool) (map[repoIdx]string, bool) {
+	if k.Op != token.ILLEGAL {
+		return nil, false
+	}
+	c, ok := k.X.(*ssa.Call)
+	if !ok {
+		return nil, false
+	}
+	callee := c.Call.StaticCallee()
+	if callee == nil || callee.Object() == nil {
+		return nil, false
+	}
+	fobj, _ := callee.Object().(*types.Func)
+	for _, wf := range wrapperSummary(g.p, fobj) {
+		if wf.kind != f.name || wf.result != val || wf.repoArg >= len(c.Call.Args) {
+			continue
+		}
+		if wf.kind == "tenant.HasAccess" {
+			if wf.ctxArg < 0 || wf.ctxArg >= len(c.Call.Args) {
+				continue
+			}
+			if f.ctxParam != nil && !derivesFromRequestCtx(c.Call.Args[wf.ctxArg], f.ctxParam) {
+				continue
+			}
+		}
+		return g.repoIndexes(c.Call.Args[wf.repoArg]), true
+	}
+	return nil, false
 }
 
 // factFileTombstones: the comma-ok lookup in Repository.FileTombstones missed
@@ -289,7 +323,7 @@ func factFileTombstones() guardFact {
 // factHasAccess: key is a call to tenant.HasAccess whose id argument is read
 // from a per-repository record.
 func factHasAccess(hasAccess *types.Func, ctxParam ssa.Value) guardFact {
-	return guardFact{name: "tenant.HasAccess", want: true, match: func(g *guardCtx, k an.FKey) (map[repoIdx]string, bool) {
+	return guardFact{name: "tenant.HasAccess", want: true, ctxParam: ctxParam, match: func(g *guardCtx, k an.FKey) (map[repoIdx]string, bool) {
 		if k.Op != token.ILLEGAL {
 			return nil, false
 		}
@@ -355,6 +389,11 @@ func (g *guardCtx) checkGuards(r *an.R, rule string, sinks []guardSink, facts []
 					return true
 				}
 			}
+			for _, v := range []bool{true, false} {
+				if _, ok := wrapperMatch(g, &facts[i], k, v); ok {
+					return true
+				}
+			}
 		}
 		return false
 	}}
@@ -378,6 +417,14 @@ func (g *guardCtx) checkGuards(r *an.R, rule string, sinks []guardSink, facts []
 				ok := false
 				for ff := &f; ff != nil && !ok; ff = ff.alt {
 					for k, v := range fs {
+						// the fact hidden in a predicate helper (any result value that establishes it)
+						if idx, isW := wrapperMatch(g, &f, k, v); isW {
+							for i := range idx {
+								if _, same := s.idx[i]; same {
+									ok = true
+								}
+							}
+						}
 						if v != ff.want {
 							continue
 						}
